@@ -1,8 +1,6 @@
 // ===== spec/evalbound_spec.rs : ghost definitions for Function::evaluate_bound (hand-written, independent of /repo) =====
-// SortedIds (sorted_ids.rs) is an opaque sorted list of ids; its view is the sequence of ids (with repetitions).
-#[verifier::external_body] pub struct SortedIds { v: Vec<u64> }
-impl View for SortedIds { type V = Seq<u64>; uninterp spec fn view(&self) -> Seq<u64>; }
-impl VClone for SortedIds { #[verifier::external_body] fn vclone(&self) -> (r: Self) ensures r == *self { unimplemented!() } }
+// SortedIds (sorted_ids.rs, extracted newtype over Vec<u64>): its view is the sequence of ids (with repetitions).
+impl View for SortedIds { type V = Seq<u64>; open spec fn view(&self) -> Seq<u64> { self.0@ } }
 
 // value of a term list: sum of coefficient * product of the values of the ids
 pub open spec fn tsum(t: Seq<(SortedIds, F64)>, n: int, m: Map<u64, F64>) -> real decreases n {
